@@ -525,7 +525,153 @@ pub enum Case20 {
         max_atom_len: u64,
         rsched: IoSchedule,
     },
+    /// a body written by the harness from the format description (not by the serializer):
+    /// any group order, unreferenced atoms, right-first conses, pair back-references, optionally
+    /// over-long varints; `expect` is what the reference stack machine builds from it
+    Structured {
+        #[serde(with = "hex_serde")]
+        body: Vec<u8>,
+        #[serde(with = "sx_serde")]
+        expect: Sx,
+        overlong: bool,
+        longest: u64,
+        #[serde(with = "hex_serde")]
+        trailing: Vec<u8>,
+    },
 }
+
+/// varint writer from docs/serde-2026.md; `extra` adds that many bytes to the shortest encoding
+fn ref_write_varint(out: &mut Vec<u8>, v: i64, extra: usize) {
+    let mut n = 0usize; // additional bytes
+    loop {
+        let bits = 7 + 7 * n as u32;
+        let min = -(1i64 << (bits - 1));
+        let max = (1i64 << (bits - 1)) - 1;
+        if v >= min && v <= max {
+            break;
+        }
+        n += 1;
+    }
+    let n = (n + extra).min(7);
+    let bits = 7 + 7 * n as u32;
+    let u: u64 = if v < 0 { (v + (1i64 << bits)) as u64 } else { v as u64 };
+    let lead: u8 = if n == 0 { 0 } else { (((1u16 << n) - 1) << (8 - n)) as u8 };
+    out.push(lead | ((u >> (8 * n)) as u8 & (0xffu8 >> (n + 1).min(8))));
+    for i in (0..n).rev() {
+        out.push((u >> (8 * i)) as u8);
+    }
+}
+
+fn gen_structured(rng: &mut Rng) -> Case20 {
+    let overlong = rng.chance(1, 5);
+    let mut extra = |rng: &mut Rng| -> usize { if overlong && rng.chance(1, 3) { 1 + rng.usize(2) } else { 0 } };
+    let mut any_overlong = false;
+    let mut body = Vec::new();
+    let mut atoms: Vec<Vec<u8>> = Vec::new();
+    let ngroups = rng.usize(7);
+    {
+        let e = extra(rng);
+        any_overlong |= e > 0;
+        ref_write_varint(&mut body, ngroups as i64, e);
+    }
+    let mut longest = 0usize;
+    for _ in 0..ngroups {
+        let len = match rng.below(6) {
+            0..=2 => 1,
+            3 => 1 + rng.usize(4),
+            4 => *rng.pick(&[63usize, 64, 65, 32]),
+            _ => 1 + rng.usize(40),
+        };
+        longest = longest.max(len);
+        let count = if rng.chance(2, 3) { 1 } else { 1 + rng.usize(4) };
+        if count == 1 && rng.chance(4, 5) {
+            let e = extra(rng);
+            any_overlong |= e > 0;
+            ref_write_varint(&mut body, len as i64, e);
+        } else {
+            let e = extra(rng);
+            any_overlong |= e > 0;
+            ref_write_varint(&mut body, -(len as i64), e);
+            let e = extra(rng);
+            any_overlong |= e > 0;
+            ref_write_varint(&mut body, count as i64, e);
+        }
+        for _ in 0..count {
+            let a = rng.bytes(len);
+            body.extend_from_slice(&a);
+            atoms.push(a);
+        }
+    }
+    // instruction list: a valid stack program
+    let mut t = Sx { nodes: vec![], root: 0 };
+    let mut stack: Vec<u32> = Vec::new();
+    let mut pairs: Vec<u32> = Vec::new();
+    let mut instrs: Vec<i64> = Vec::new();
+    let steps = 1 + rng.usize(24);
+    for _ in 0..steps {
+        let c = rng.below(10);
+        if stack.len() >= 2 && c < 4 {
+            let (b, a) = (stack.pop().unwrap(), stack.pop().unwrap());
+            // a was pushed first
+            if rng.chance(3, 4) {
+                instrs.push(1); // left pushed first
+                let p = t.push_pair(a, b);
+                pairs.push(p);
+                stack.push(p);
+            } else {
+                instrs.push(-1); // right pushed first
+                let p = t.push_pair(b, a);
+                pairs.push(p);
+                stack.push(p);
+            }
+        } else if c < 6 || (atoms.is_empty() && pairs.is_empty()) {
+            instrs.push(0);
+            let n = t.push_atom(&[]);
+            stack.push(n);
+        } else if !atoms.is_empty() && (c < 9 || pairs.is_empty()) {
+            let i = rng.usize(atoms.len());
+            instrs.push(i as i64 + 2);
+            let n = t.push_atom(&atoms[i]);
+            stack.push(n);
+        } else {
+            let i = rng.usize(pairs.len());
+            instrs.push(-(i as i64) - 2);
+            stack.push(pairs[i]);
+        }
+    }
+    while stack.len() > 1 {
+        let (b, a) = (stack.pop().unwrap(), stack.pop().unwrap());
+        instrs.push(1);
+        let p = t.push_pair(a, b);
+        pairs.push(p);
+        stack.push(p);
+    }
+    t.root = stack[0];
+    {
+        let e = extra(rng);
+        any_overlong |= e > 0;
+        ref_write_varint(&mut body, instrs.len() as i64, e);
+    }
+    for i in &instrs {
+        let e = extra(rng);
+        any_overlong |= e > 0;
+        ref_write_varint(&mut body, *i, e);
+    }
+    let trailing = if rng.chance(1, 3) {
+        let n = 1 + rng.usize(6);
+        rng.bytes(n)
+    } else {
+        vec![]
+    };
+    Case20::Structured {
+        body,
+        expect: t.compact(),
+        overlong: any_overlong,
+        longest: longest as u64,
+        trailing,
+    }
+}
+
 
 fn longest_atom(t: &Sx) -> usize {
     // only atoms reachable from the root count
@@ -559,6 +705,9 @@ impl Scenario for C20 {
             tree = gen_tree(rng, &cfg);
         }
         let level = *rng.pick(&[0u32, 1, 7, u32::MAX]);
+        if rng.chance(1, 4) {
+            return gen_structured(rng);
+        }
         if rng.chance(1, 2) {
             let wsched = {
                 let mut s = IoSchedule::benign(rng, 64, true);
@@ -803,6 +952,83 @@ impl Scenario for C20 {
                 out.nontrivial = tree.nodes.len() >= 3;
                 fin(out, fp)
             }
+            Case20::Structured { body, expect, overlong, longest, trailing } => {
+                let mut blob = SERDE_2026_MAGIC_PREFIX.to_vec();
+                blob.extend_from_slice(body);
+                let blen = blob.len() as u64;
+                let mut full = blob.clone();
+                full.extend_from_slice(trailing);
+                fp.bytes(&full);
+                let max = (*longest as usize).max(1);
+                out.count(if *overlong { "probe.structured_overlong" } else { "probe.structured_minimal" }, 1);
+                for strict in [true, false] {
+                    let should_accept = !(strict && *overlong);
+                    let mut a2 = Allocator::new();
+                    let mut cur = Cursor::new(full.as_slice());
+                    let r = deserialize_2026_from_stream(&mut a2, &mut cur, max, strict);
+                    let p = serialized_length_serde_2026(&full, max, strict);
+                    out.evals += 2;
+                    match (&r, should_accept) {
+                        (Ok(n2), true) => {
+                            let same = Sx::from_alloc(&a2, *n2, 4_000_000).map(|t| t.same_tree(expect)).unwrap_or(false);
+                            if !same || cur.position() != blen {
+                                out.fail(
+                                    Violation::new("structured-decodes-to-reference", format!("blob {} strict={strict}: decoded tree equals the reference stack machine's: {same}; consumed {} of {blen}", hex_short(&blob), cur.position()))
+                                        .with("strict", &strict.to_string()),
+                                );
+                                return fin(out, fp);
+                            }
+                            match &p {
+                                Ok(l) if *l == blen => {}
+                                other => {
+                                    out.fail(
+                                        Violation::new("probe-equals-consumed", format!("blob {} ({} trailing bytes) strict={strict}: decoder consumed {blen} bytes, probe says {:?}", hex_short(&blob), trailing.len(), other.as_ref().map_err(|e| err_name(e))))
+                                            .with("strict", &strict.to_string()),
+                                    );
+                                    return fin(out, fp);
+                                }
+                            }
+                        }
+                        (Err(e), true) => {
+                            out.fail(
+                                Violation::new("structured-decodes-to-reference", format!("blob {} strict={strict} max_atom_len={max}: a body that follows the format description is rejected: {}", hex_short(&blob), err_name(e)))
+                                    .with("strict", &strict.to_string()),
+                            );
+                            return fin(out, fp);
+                        }
+                        (Ok(_), false) => {
+                            out.fail(Violation::new("strict-rejects-overlong", format!("blob {} contains an over-long varint but strict decoding accepted it", hex_short(&blob))));
+                            return fin(out, fp);
+                        }
+                        (Err(_), false) => {
+                            if p.is_ok() {
+                                out.fail(Violation::new("strict-rejects-overlong", format!("blob {}: strict decoder rejects the over-long varint but the strict probe accepts", hex_short(&blob))));
+                                return fin(out, fp);
+                            }
+                        }
+                    }
+                    // one byte less of max_atom_len must refuse a blob whose longest table atom is `longest`
+                    if *longest >= 1 && should_accept {
+                        let mut a3 = Allocator::new();
+                        if deserialize_2026(&mut a3, &full, *longest as usize - 1, strict).is_ok() || serialized_length_serde_2026(&full, *longest as usize - 1, strict).is_ok() {
+                            out.fail(Violation::new("max-atom-len-enforced", format!("blob {}: table atom of {longest} bytes accepted with max_atom_len {}", hex_short(&blob), longest - 1)));
+                            return fin(out, fp);
+                        }
+                    }
+                }
+                for (name, ok) in [
+                    ("node_from_bytes", node_from_bytes(&mut Allocator::new(), &full).is_ok()),
+                    ("node_from_bytes_backrefs", node_from_bytes_backrefs(&mut Allocator::new(), &full).is_ok()),
+                    ("node_from_bytes_backrefs_old", node_from_bytes_backrefs_old(&mut Allocator::new(), &full).is_ok()),
+                ] {
+                    if ok {
+                        out.fail(Violation::new("legacy-decoders-reject-magic", format!("{name} accepted {}", hex_short(&full))).with("fn", name));
+                        return fin(out, fp);
+                    }
+                }
+                out.nontrivial = expect.nodes.len() >= 2;
+                fin(out, fp)
+            }
             Case20::Bytes { body, max_atom_len, rsched } => {
                 let mut blob = SERDE_2026_MAGIC_PREFIX.to_vec();
                 blob.extend_from_slice(body);
@@ -939,6 +1165,7 @@ impl Scenario for C20 {
                 });
                 v
             }
+            Case20::Structured { .. } => vec![],
             Case20::Bytes { body, max_atom_len, rsched } => {
                 let mut v = Vec::new();
                 v.push(Case20::Bytes {
@@ -965,11 +1192,12 @@ impl Scenario for C20 {
             Case20::RoundTrip { tree, level, wsched, rsched, trailing } => {
                 json!({"kind": "roundtrip", "tree": tree.brief(120), "level": level, "writer_hard_fault": format!("{:?}", wsched.hard), "reader_hard_fault": format!("{:?}", rsched.hard), "trailing_bytes": trailing.len()})
             }
+            Case20::Structured { body, expect, overlong, trailing, .. } => json!({"kind": "structured", "blob": format!("fdff32303236 {}", hex_short(body)), "reference_tree": expect.brief(100), "overlong_varints": overlong, "trailing_bytes": trailing.len()}),
             Case20::Bytes { body, max_atom_len, .. } => json!({"kind": "bytes", "blob": format!("fdff32303236 {}", hex_short(body)), "max_atom_len": max_atom_len}),
         }
     }
     fn rule() -> &'static str {
-        "two case kinds. RoundTrip: seeded tree, level in {0,1,7,u32::MAX}; serialize_2026 / _to_stream through a writer with short writes, EINTR and (1/3) a hard error at an offset; deserialize strict and lenient with max_atom_len in {longest-1 (must fail), longest, 2^22}, with optional trailing bytes; length probe; a reader session with short reads, EINTR and (1/3) EOF or an error at an offset; legacy decoders must reject the blob. Bytes: magic prefix + body, where body is (first 65,793 runs) every string of length <=2, then a valid body under storage-fault mutations or random bytes, max_atom_len in {0,1,longest-1,longest,2^16,2^20,2^22}; strict and lenient decoders, body decoder, probe and a reader session must return, stay within the allocation bound, and agree. Non-trivial: tree of >=3 nodes / body of >=2 bytes."
+        "three case kinds. Structured (1/4): a body written by the harness from docs/serde-2026.md - groups in any order and form, unreferenced atoms, right-first conses, pair back-references, optional trailing bytes, 1/5 with over-long varints - with the tree the reference stack machine builds from it: strict and lenient decoders must give that tree and consume exactly the blob, the probe must equal the blob length, strict decoder and strict probe must reject over-long varints, max_atom_len one below the longest table atom must refuse. RoundTrip: seeded tree, level in {0,1,7,u32::MAX}; serialize_2026 / _to_stream through a writer with short writes, EINTR and (1/3) a hard error at an offset; deserialize strict and lenient with max_atom_len in {longest-1 (must fail), longest, 2^22}, with optional trailing bytes; length probe; a reader session with short reads, EINTR and (1/3) EOF or an error at an offset; legacy decoders must reject the blob. Bytes: magic prefix + body, where body is (first 65,793 runs) every string of length <=2, then a valid body under storage-fault mutations or random bytes, max_atom_len in {0,1,longest-1,longest,2^16,2^20,2^22}; strict and lenient decoders, body decoder, probe and a reader session must return, stay within the allocation bound, and agree. Non-trivial: tree of >=3 nodes / body of >=2 bytes."
     }
     fn default_runs(tier: Tier) -> u64 {
         match tier {
